@@ -770,7 +770,12 @@ func navCheck(w *mc.Worker, prog *gen.Program, pr *gen.Printed, text string, sta
 	for ln := 0; ln < len(lines) && bad == ""; ln++ {
 		for ch := 0; ch <= len(utf16.Encode([]rune(lines[ln])))+1 && bad == ""; ch++ {
 			npos++
-			// which token (if any) contains ch strictly / at its end
+			// which token (if any) contains ch strictly / at its end; a character beyond the end of the
+			// line may be read as the end of the line (the protocol says it "defaults back to the line length")
+			eff := ch
+			if n16 := len(utf16.Encode([]rune(lines[ln]))); eff > n16 {
+				eff = n16
+			}
 			inside, atEnd := -1, -1
 			for ti := range pr.Toks {
 				if starts[ti].Line != ln {
@@ -779,7 +784,7 @@ func navCheck(w *mc.Worker, prog *gen.Program, pr *gen.Printed, text string, sta
 				if starts[ti].Char <= ch && ch < ends[ti].Char {
 					inside = ti
 				}
-				if ch == ends[ti].Char {
+				if eff == ends[ti].Char {
 					atEnd = ti
 				}
 			}
